@@ -964,8 +964,8 @@ pub fn tls_lazy_prog(s: &mut Src, max_threads: usize, max_ops: usize, atomics: b
             0 => Op::TlsWith { k: key },
             1 => Op::TlsBump { k: key },
             2 => Op::TlsNested { k: key },
-            3 | 4 => Op::LazyGet { k: key },
-            5 => Op::LazyCellRead { k: key },
+            3 | 4 => Op::LazyGet { k: if s.chance(1, 4) { 2 } else { key } },
+            5 => Op::LazyCellRead { k: if s.chance(1, 3) { 2 } else { key } },
             6 => Op::Load { a: 0, o: MO::Sc },
             _ => {
                 next_val += 1;
